@@ -316,6 +316,8 @@ func c13NewWorld(chacha bool, sA, sT c13Start, workers int, park bool) *c13World
 		messageMetrics:    &MessageMetrics{txExhausted: &c13ExhaustCounter{Counter: metrics.NewCounter(), h: w.h}},
 		connectionManager: &connectionManager{relayUsed: map[uint32]struct{}{}, relayUsedLock: &sync.RWMutex{}, l: l},
 		hostMap:           &HostMap{Hosts: map[netip.Addr]*HostInfo{addrA: w.hA}},
+		// the post-rebind branch of sendNoMetrics asks the lighthouse; a node that is a lighthouse itself returns at once
+		lightHouse: &LightHouse{amLighthouse: true},
 	}
 	for i := 0; i < workers; i++ {
 		c := &c13Conn{}
@@ -1105,7 +1107,7 @@ func TestC13_Hammer(t *testing.T) {
 		rounds := rapid.IntRange(400, 2500).Draw(rt, "rounds")
 		pats := make([][]string, n)
 		for i := range pats {
-			pats[i] = rapid.SliceOfN(rapid.SampledFrom([]string{"hot", "hot", "hot", "ctl", "via", "viaShort"}), 1, 3).Draw(rt, "pattern")
+			pats[i] = rapid.SliceOfN(rapid.SampledFrom([]string{"hot", "hot", "hot", "ctl", "via", "viaShort", "rebind"}), 1, 3).Draw(rt, "pattern")
 		}
 		demand := uint64(n * rounds)
 		sA := c13DrawStart(rt, "startA", demand)
@@ -1131,6 +1133,11 @@ func TestC13_Hammer(t *testing.T) {
 							c.pkts = append(c.pkts, append([]byte{}, p...))
 						}
 					case "ctl":
+						w.f.sendNoMetrics(header.Test, header.TestRequest, w.ciA, w.hA, w.directRemote, ad, nb, out[:0], id)
+					case "rebind":
+						// the underlay socket was rebound: the next control send on the tunnel takes the
+						// "tell the lighthouse" branch, with its counter already reserved
+						w.f.rebindCount.Add(1)
 						w.f.sendNoMetrics(header.Test, header.TestRequest, w.ciA, w.hA, w.directRemote, ad, nb, out[:0], id)
 					case "via":
 						if p, err := w.f.prepareSendVia(w.hA, w.relay, ad, nb, out[:0], false); err == nil {
